@@ -16,7 +16,15 @@ func obligations(s *Snapshot) (pending, earned int64) { return obligationsIn(s, 
 
 // obligationsIn: pending fees and unwithdrawn earnings recorded in one denomination
 func obligationsIn(s *Snapshot, denom string) (pending, earned int64) {
+	// a request awaits a response while either of the two pending-request indexes (by id, by binding) lists it
+	awaiting := map[string]bool{}
 	for id := range s.ActiveID {
+		awaiting[id] = true
+	}
+	for _, e := range s.ActiveB {
+		awaiting[e.ReqID] = true
+	}
+	for id := range awaiting {
 		if r, ok := s.Reqs[id]; ok {
 			pending += mustI64(r.ServiceFee.AmountOf(denom))
 		}
